@@ -5487,6 +5487,9 @@ class CodegenCtx:
         elif isinstance(intexpr, StringRefIntegerExpr):
             index = self._generate_code_for_int_expr(intexpr.index, ctx)
             text = self._generate_buflike_index_expr(intexpr.ref, index)
+            if intexpr.ref.holds_a(OutputStorageType.STR) and not ProgramData.do(ProgramFlag.STRINGS_AS_U8):
+                # bytes read back from a string are 0-255 like $last, whatever the signedness of char
+                text = f"((uint8_t){text})"
             size_str = self._generate_buflike_length_expr(intexpr.ref)
             if ProgramData.do(ProgramFlag.UNSAFE_STRING_INDEXING):
                 return text
